@@ -133,6 +133,37 @@ def forward_replay(rep, fnd, tab, records, pid, pin_every=7):
                         break
                 if not ok:
                     break
+        if ok and k % 2 == 0:
+            # the same operator in FLOAT32: with integer taps and indicator inputs every intermediate value is a small integer
+            # (times a power of 1/sqrt 2 at the very end), exactly representable - an algorithm that treats float32 data
+            # differently from float64 data (a "stabilisation", a reduced-precision shortcut) cannot hide behind rounding here
+            torch.set_default_dtype(torch.float32)
+            try:
+                m32 = fwd_module(taps, J, include_scale=True)
+                yls32, yhs32 = m32(X.float())
+                for j in range(J):
+                    if yls32[j].dtype != torch.float32 or yhs32[j].dtype != torch.float32:
+                        ok, what = False, "float32 input: level %d comes back as %s / %s" % (j + 1, yls32[j].dtype, yhs32[j].dtype)
+                        break
+                    if not dwtlib.eq_int(yls32[j][:, 0].reshape(H * W, -1).double().numpy().T, lows[j]):
+                        ok, what = False, "float32 input: level %d lowpass differs from the (exactly representable) reference operator" % (j + 1)
+                        break
+                    for o in range(6):
+                        for ri, part in enumerate(("re", "im")):
+                            v = yhs32[j][:, 0, o, :, :, ri].reshape(H * W, -1).double().numpy().T * SQ2
+                            want = highs[j][o][part]
+                            if v.shape != want.shape or float(np.abs(v - want).max()) > 8 * 1.2e-7 * (float(np.abs(want).max()) + 1.0):
+                                ok, what = False, "float32 input: level %d orientation %d (%s part) differs from the (exactly representable) reference operator" % (j + 1, o, part)
+                                break
+                        if not ok:
+                            break
+                    if not ok:
+                        break
+            except Exception as e:   # noqa
+                ok, what = False, "float32 input: raised %r" % (e,)
+            finally:
+                torch.set_default_dtype(torch.float64)
+            rep.count("forward_configs_float32")
         if ok:
             n_ok += 1
             if n_ok == 1:
@@ -374,7 +405,8 @@ def numeric_inverse(rep, fnd, pid, tier):
     logging.disable(logging.WARNING)
     try:
         for (b, q) in pairs:
-            for _ in range(3 if tier == "quick" else 8):
+            reps = 3 if tier == "quick" else 8
+            for rk in range(reps):
                 H, W = int(rng.integers(2, 37)), int(rng.integers(2, 37))
                 J = int(rng.integers(1, 5))
                 cfg = dict(biort=b, qshift=q, H=H, W=W, J=J)
@@ -382,6 +414,15 @@ def numeric_inverse(rep, fnd, pid, tier):
                 p = tr.forward(np.zeros((H, W)), nlevels=J)
                 low = rng.standard_normal(p.lowpass.shape)
                 his = [rng.standard_normal(h.shape) + 1j * rng.standard_normal(h.shape) for h in p.highpasses]
+                amp = 1.0
+                if rk == reps - 1:
+                    # a pyramid with a huge dynamic range BETWEEN its components (an image with a large offset: lowpass ~ 1e6,
+                    # details ~ 1e-3 .. 1): the synthesis is linear - no component is "negligible" next to another
+                    scl = [10.0 ** int(rng.integers(5, 8))] + [10.0 ** int(rng.integers(-3, 1)) for _ in his]
+                    low = low * scl[0]
+                    his = [h * s_ for h, s_ in zip(his, scl[1:])]
+                    amp = scl[0] * 4.0
+                    cfg["component_scales"] = scl
                 ref = tr.inverse(Pyramid(low, tuple(his)))
                 yh = [torch.tensor(np.stack([np.moveaxis(h.real, 2, 0), np.moveaxis(h.imag, 2, 0)], axis=-1))[None, None] for h in his]
                 try:
@@ -392,7 +433,7 @@ def numeric_inverse(rep, fnd, pid, tier):
                     continue
                 n += 1
                 rep.nontriv(("dt_inv_num", b, q, H, W, J))
-                tol = 1e-12 * 4.0 ** J * 8
+                tol = 1e-12 * 4.0 ** J * 8 * amp
                 err = np.abs(y - ref).max() if y.shape == ref.shape else np.inf
                 if not err <= tol:
                     rep.violation("DTCWTInverse(%s,%s) differs from dtcwt.Transform2d.inverse at %s: max error %.3g (bound %.3g), shapes %s vs %s"
